@@ -349,6 +349,42 @@ func runC06(p *core.Prog, r *core.Report, tier string) {
 	}
 	r.Floor("C06.g calls with co-indexed slice arguments", nPar, 2)
 
+	// ---- (l) what is signed is computed for the call at hand: the signer keeps no signature domain between calls (a
+	// domain belongs to an epoch's fork; a cached one is wrong for a request on the other side of a fork), and no
+	// signing root comes out of a map (a root depends on every field of the object; a memo keyed by one of them hands
+	// the second object the first one's root) ----
+	nKept := 0
+	if pk := p.ByPath[core.ModulePath+"/"+signerRel]; pk != nil && pk.Types != nil {
+		if tn, ok := pk.Types.Scope().Lookup("Service").(*types.TypeName); ok {
+			if st, ok := tn.Type().Underlying().(*types.Struct); ok {
+				for i := 0; i < st.NumFields(); i++ {
+					ft := strings.TrimPrefix(st.Field(i).Type().String(), "*")
+					if strings.HasSuffix(ft, "phase0.Domain") {
+						nKept++
+						r.Violate("C06.l", "Service."+st.Field(i).Name()+"|no-domain-kept-between-calls", p.Pos(st.Field(i).Pos()), "the signer's Service keeps a signature domain in the field "+st.Field(i).Name()+": a request for an epoch on the other side of a fork from the one it was fetched for is signed under the wrong domain")
+					}
+				}
+			}
+		}
+	}
+	for _, f := range fns {
+		core.EachInstr(f, func(in ssa.Instruction) {
+			lk, ok := in.(*ssa.Lookup)
+			if !ok {
+				return
+			}
+			mt, ok := lk.X.Type().Underlying().(*types.Map)
+			if !ok || !strings.HasSuffix(mt.Elem().String(), "phase0.Root") {
+				return
+			}
+			nKept++
+			r.Violate("C06.l", fmt.Sprintf("%s|no-root-from-a-map#%d", core.FnKey(f), nKept), p.Pos(lk.Pos()), "a signing root is taken out of a map keyed by "+mt.Key().String()+": the root covers every field of the object, so two objects that share the key but differ elsewhere get one root, and the second is signed over the first one's message")
+		})
+	}
+	if nKept == 0 {
+		r.Hold("C06.l", "nothing-kept-between-calls", "", "the signer keeps no signature domain in its Service and takes no signing root out of a map")
+	}
+
 	// ---- (k) the groups a batch is split into are signed independently: where a signing method tests two of its own
 	// groups for being non-empty, the second test is reached whether or not the first group was empty ----
 	nGroups := 0
